@@ -547,6 +547,9 @@ func TestC09(t *testing.T) {
 	defer rep.Write(t)
 	rep.Rule = "(1) intact Join / push-pull for every pair of third-member states (5 x 7) under encryption{off,v1,v0} x compression x label{none,5 B,255 B} x merge delegate{none,accept,veto at host,veto at initiator} x join flag; (2) the stream cut at every byte offset of the request and of the reply, cut-then-close and cut-then-stall; (3) wrong key / wrong label; (5) crafted remote lists (duplicates, entries about the receiver, short/zero/empty version vectors, contradictory entries); (6) the version rule on all tuples differing from a valid base in <= 2 fields for one remote node x <= 1 field for a local peer and a second remote node (alive and dead)"
 	rep.Assumptions = []string{"size caps and bit-level tampering of the stream are covered by C13 and C14", "when only the reply is damaged the host has legitimately merged the intact request: not judged", "a remote left entry removes the member at once (self-signed departure relayed): exercised, judged under C08"}
+	if replayT(t, rep, c09TScenarios()) {
+		return
+	}
 	var rp c09Replay
 	if loadReplay(&rp) {
 		switch rp.Kind {
@@ -655,6 +658,22 @@ func TestC09(t *testing.T) {
 	}
 	runC09Crafted(t, rep)
 	runC09Versions(t, rep)
+	// ---- (7) concurrent gossip, Engine T
+	tscs := c09TScenarios()
+	if !thorough() {
+		var sub []tScenario
+		for i, sc := range tscs {
+			if i%3 == 0 {
+				sub = append(sub, sc)
+			}
+		}
+		tscs = sub
+	}
+	tb := 1
+	if thorough() {
+		tb = 2
+	}
+	runTSet(t, rep, tscs, tb, 13000)
 	rep.Distinct = rep.Evaluations
 	rep.Sample(map[string]any{"intact": c09Cfg{lats[4], "veto-host", true, axs[1], bxs[3]}.String(), "cut": "request cut at byte 41 then stall; reply cut at byte 7 then close"})
 }
